@@ -36,6 +36,7 @@ CLASS_HOME = {
     'BoundsEnforceLS': 'openmdao/solvers/linesearch/backtracking.py',
     'ArmijoGoldsteinLS': 'openmdao/solvers/linesearch/backtracking.py',
     'EQConstraintComp': 'openmdao/components/eq_constraint_comp.py',
+    'Group': 'openmdao/core/group.py',
     'BalanceComp': 'openmdao/components/balance_comp.py',
     'DotProductComp': 'openmdao/components/dot_product_comp.py',
     'VectorMagnitudeComp': 'openmdao/components/vector_magnitude_comp.py',
@@ -65,6 +66,7 @@ PROPERTY_MODULES = {
     'C02': ['contracts.c02_adjoint'],
     'C11': ['contracts.c11_assembled'],
     'C26': ['contracts.c26_components'],
+    'C32': ['contracts.c32_order'],
 }
 
 # modules whose contracts may be used as callee contracts by any property
@@ -413,3 +415,29 @@ GAPS['C26'] = ['AddSubtractComp, MuxComp, CrossProductComp, MatrixVectorProductC
                'BalanceComp.guess_nonlinear, add_constraint wiring of EQConstraintComp']
 PROPERTY_ASSUMPTIONS['C26'] = ['A3 complex-step values are dual numbers a + eps*b, eps**2 = 0: "exact partials" means the eps-part of the real compute() run on dual inputs',
                                'NumPy orders complex values lexicographically (real part, then imaginary part); modelled as such for dual numbers']
+
+
+def _c32_extra(tier, seed, native_run):
+    out = {'violations': [], 'errors': []}
+    r = _run_bounded('c32_order.py', [tier], timeout=6000)
+    if 'error' in r:
+        out['errors'].append('bounded ordering tier could not run: ' + r['error'])
+        return out
+    rule = ('every digraph on <= %d nodes (no self loops) x every declared subsystem order x {top-level group, nested group}%s; each model is set up and run twice; '
+            'a case is non-trivial when it has at least one edge and a declared order different from the node numbering; cases are distinct by construction (enumeration)'
+            % (r['max_nodes'], ' + every 37th 4-node digraph with a rotating declared order' if r.get('extra_4_node_cases') else ''))
+    out['bounded_ordering'] = {
+        'note': 'BOUNDED exhaustive tier: real Groups of ExecComps with explicit connections, auto_order=True, default run-once solvers; oracle from the statement (cross-SCC predecessors first, cycle members keep declared order, '
+                'acyclic => zero residuals and dependency-order values after ONE run), SCCs computed independently of networkx',
+        'bound': rule, 'evaluations': r['evaluations'], 'distinct_nontrivial': r['distinct_nontrivial'], 'exhaustive': True, 'failures': r['n_failures'], 'samples': r['samples']}
+    out['exploration'] = {'evaluations': r['evaluations'], 'distinct_nontrivial': r['distinct_nontrivial'], 'rule': rule, 'samples': r['samples'], 'exhaustive': True}
+    for f in r['failures'][:3]:
+        out['violations'].append(dict(f, what='ordering: ' + f['kind'], witness_id='c32-%s' % json_key(f)))
+    return out
+
+
+EXTRA_TIERS['C32'] = _c32_extra
+LEVELS['C32'] = 'exploration'
+GAPS['C32'] = ['get_sccs_topo / get_out_of_order_nodes / Group._set_auto_order / System.set_order (networkx SCCs, sets, sorted with key functions): outside pyvc\'s subset, BOUNDED exhaustive tier only',
+               'models with more than 4 subsystems per group; groups with implicit (promotion-based) connections, auto-IVC sources, nested cycles',
+               'parallel groups / MPI']
